@@ -476,7 +476,9 @@ class XPathContext:
             if self.document is not None or self.item is not self.root:
                 item = self.item
 
-                if item.parent is not None:
+                # attribute and namespace nodes have no siblings
+                if item.parent is not None and \
+                        not isinstance(item, (AttributeNode, NamespaceNode)):
                     status = self.item, self.axis
                     self.axis = axis or 'following-sibling'
 
